@@ -55,6 +55,8 @@ func keyGroup(k int) int {
 		return 3
 	case SecNil, SecIfNil, SecSetNil:
 		return 4
+	case SecUnb, SecUnbCont:
+		return 8
 	case SecLocal, SecReader, SecRangeKey:
 		return 5
 	case SecLocObj, SecLocObjReader:
